@@ -689,6 +689,9 @@ def run(ctx: Ctx) -> None:
     ctx.attempt(rule_r6_extent, ctx)
     ctx.attempt(rule_r7_keys, ctx)
     ctx.attempt(rule_r8_concrete, ctx)
+    from . import layouttext
+
+    ctx.attempt(layouttext.rule_c02_r9, ctx)
     ctx.assume("reachable alignments are {1, 8} (R4); capacities < 2**64")
     ctx.undecided("that every element of every set is a multiple of the alignment as a *set* fact, and the exactness of the bit-length-set arithmetic itself (C01)")
     ctx.analysed["modules"] = ["_serializable/_primitive", "_void", "_array", "_composite"]
